@@ -121,13 +121,16 @@ ExRange(f, t, F) ==
   IN Step("ExRange", f, IF F = {} THEN "ok" ELSE "fail", "na", res, IF res = "ok" THEN pref ELSE {}, okH,
           X(0, t, F, FALSE))
 
+\* only the outcomes a step consults are chosen ("na": storeEDS does not write -- block not kept, already stored, or empty)
+StOpts(g) == IF Keeps(g) /\ stored[g] = "none" /\ ~empty[g] THEN StoreOut ELSE {"na"}
+
 Next ==
-  \/ \E h \in Heights, st \in StoreOut :
-        \/ ExByHeight(h, "ok", h, st)
-        \/ ExByHash(h, "ok", h, st)
-        \/ \E g \in Heights \ {h} : ExByHeight(h, "wrong_height", g, st) \/ ExByHash(h, "wrong_hash", g, "na")
-  \/ \E h \in Heights : ExByHeight(h, "fail", h, "na") \/ ExByHash(h, "fail", h, "na") \/ ExByHash(h, "info_fail", h, "na")
-  \/ \E st \in StoreOut : ExHead("ok", st)
+  \/ \E h \in Heights :
+        \/ \E st \in StOpts(h) : ExByHeight(h, "ok", h, st) \/ ExByHash(h, "ok", h, st)
+        \/ \E g \in Heights \ {h} : \/ \E st \in StOpts(g) : ExByHeight(h, "wrong_height", g, st)
+                                    \/ ExByHash(h, "wrong_hash", g, "na")
+        \/ ExByHeight(h, "fail", h, "na") \/ ExByHash(h, "fail", h, "na") \/ ExByHash(h, "info_fail", h, "na")
+  \/ \E st \in StOpts(H) : ExHead("ok", st)
   \/ ExHead("fail", "na")
   \/ \E f \in Heights, t \in 2..(H + 1) : t > f /\ \E F \in SUBSET ((f + 1)..(t - 1)) : ExRange(f, t, F)
 
